@@ -75,6 +75,13 @@ Definition cs_cardinal (po : operands) : pcat :=
   else if N.eqb i 1 && v0 then ONE
   else OTHER.
 
+(* pt (Brazilian and generic Portuguese): one <= i = 0..1 ;  pt-PT: one <= i = 1 and v = 0 — the one language whose
+   REGION selects a different rule set, so negotiation must keep the region of the bundle's first locale *)
+Definition pt_cardinal (po : operands) : pcat :=
+  if in_range 0 1 (op_i po) then ONE else OTHER.
+Definition ptPT_cardinal (po : operands) : pcat :=
+  if N.eqb (op_i po) 1 && N.eqb (op_v po) 0 then ONE else OTHER.
+
 Definition other_only (po : operands) : pcat := OTHER.
 
 (* language subtag = the bytes before the first '-' *)
@@ -89,7 +96,9 @@ Definition rules_for_locale (first_locale : bytes) (ty : ntype) : operands -> pc
   let l := language_subtag first_locale in
   match ty with
   | Cardinal =>
-      if str_is "pl" l then pl_cardinal
+      if str_is "pt-PT" first_locale then ptPT_cardinal
+      else if str_is "pt" l then pt_cardinal
+      else if str_is "pl" l then pl_cardinal
       else if str_is "ru" l then ru_cardinal
       else if str_is "fr" l then fr_cardinal
       else if str_is "ar" l then ar_cardinal
@@ -98,7 +107,8 @@ Definition rules_for_locale (first_locale : bytes) (ty : ntype) : operands -> pc
       else if str_is "ja" l then other_only
       else en_cardinal
   | Ordinal =>
-      if str_is "pl" l then other_only
+      if str_is "pt" l then other_only
+      else if str_is "pl" l then other_only
       else if str_is "ru" l then other_only
       else if str_is "fr" l then fr_ordinal
       else if str_is "ar" l then other_only
